@@ -791,3 +791,54 @@ func CmpGuardsX(in ssa.Instruction) ([]Cmp, Binding) {
 	}
 	return out, bind
 }
+
+// LoopBlocks returns the blocks of the natural loop headed by header: blocks dominated
+// by the header from which the header can be reached again.
+func LoopBlocks(header *ssa.BasicBlock) map[*ssa.BasicBlock]bool {
+	in := map[*ssa.BasicBlock]bool{header: true}
+	fn := header.Parent()
+	// backwards from the latches
+	var work []*ssa.BasicBlock
+	for _, p := range header.Preds {
+		if header.Dominates(p) {
+			work = append(work, p)
+		}
+	}
+	for len(work) > 0 {
+		b := work[len(work)-1]
+		work = work[:len(work)-1]
+		if in[b] {
+			continue
+		}
+		in[b] = true
+		for _, p := range b.Preds {
+			if !in[p] && header.Dominates(p) {
+				work = append(work, p)
+			}
+		}
+	}
+	_ = fn
+	return in
+}
+
+// EnclosingLoopHeader returns the innermost loop header whose loop contains b (nil if none).
+func EnclosingLoopHeader(b *ssa.BasicBlock) *ssa.BasicBlock {
+	var best *ssa.BasicBlock
+	bestSize := 0
+	for _, h := range b.Parent().Blocks {
+		isHeader := false
+		for _, p := range h.Preds {
+			if h.Dominates(p) {
+				isHeader = true
+			}
+		}
+		if !isHeader {
+			continue
+		}
+		lb := LoopBlocks(h)
+		if lb[b] && (best == nil || len(lb) < bestSize) {
+			best, bestSize = h, len(lb)
+		}
+	}
+	return best
+}
